@@ -9,7 +9,27 @@ sys.path.insert(0, os.path.dirname(os.path.abspath(__file__)))
 import common  # noqa: E402
 
 
+def line_coverage(path):
+    """VERIF_COV=<file>: append 'module:line' for every line of the implementation executed by this run (and its worker processes) - a
+    development aid to see which code of /repo no check ever executes."""
+    mon = sys.monitoring
+    tool = mon.COVERAGE_ID
+    fd = os.open(path, os.O_WRONLY | os.O_APPEND | os.O_CREAT, 0o644)
+    root = os.path.realpath(common.REPO) + os.sep
+
+    def on_line(code, line):
+        fn = code.co_filename
+        if fn.startswith(root):
+            os.write(fd, f'{fn[len(root):]}:{line}\n'.encode())
+        return mon.DISABLE
+    mon.use_tool_id(tool, 'verif-cov')
+    mon.register_callback(tool, mon.events.LINE, on_line)
+    mon.set_events(tool, mon.events.LINE)
+
+
 def main():
+    if os.environ.get('VERIF_COV'):
+        line_coverage(os.environ['VERIF_COV'])
     ap = argparse.ArgumentParser()
     ap.add_argument('target', help='property id (C01..C20), "selftest" or "all"')
     ap.add_argument('--tier', default=os.environ.get('VERIF_TIER') or 'quick', choices=['quick', 'thorough'])
